@@ -33,12 +33,15 @@ pub fn count() -> usize { LEDGER.with(|l| l.borrow().st.len()) }
 pub fn dropped_ids() -> Vec<u32> { LEDGER.with(|l| l.borrow().drops.clone()) }
 pub fn states() -> Vec<St> { LEDGER.with(|l| l.borrow().st.clone()) }
 
-pub struct Tok { pub id: u32 }
+/// `id` identifies the allocation in the ledger; `val` is what `PartialEq`/`Hash` compare (equal to `id` unless built with `with_val`),
+/// so that two containers can hold equal-looking but separately tracked elements.
+pub struct Tok { pub id: u32, pub val: u32 }
 
 impl Tok {
     pub fn new() -> Tok {
-        LEDGER.with(|l| { let mut l = l.borrow_mut(); l.st.push(St::Live); Tok { id: (l.st.len() - 1) as u32 } })
+        LEDGER.with(|l| { let mut l = l.borrow_mut(); l.st.push(St::Live); let id = (l.st.len() - 1) as u32; Tok { id, val: id } })
     }
+    pub fn with_val(val: u32) -> Tok { let mut t = Tok::new(); t.val = val; t }
     fn observe(&self, how: &str) {
         LEDGER.with(|l| {
             let mut l = l.borrow_mut();
@@ -68,6 +71,6 @@ impl Drop for Tok {
     }
 }
 impl fmt::Debug for Tok { fn fmt(&self, f: &mut fmt::Formatter) -> fmt::Result { self.observe("Debug"); write!(f, "t{}", self.id) } }
-impl PartialEq for Tok { fn eq(&self, o: &Tok) -> bool { self.observe("PartialEq"); o.observe("PartialEq"); self.id == o.id } }
+impl PartialEq for Tok { fn eq(&self, o: &Tok) -> bool { self.observe("PartialEq"); o.observe("PartialEq"); self.val == o.val } }
 impl Eq for Tok {}
-impl Hash for Tok { fn hash<H: Hasher>(&self, h: &mut H) { self.observe("Hash"); self.id.hash(h) } }
+impl Hash for Tok { fn hash<H: Hasher>(&self, h: &mut H) { self.observe("Hash"); self.val.hash(h) } }
